@@ -145,6 +145,8 @@ def run_case(cs):
         return _codec_case(cs, H)
     if mode < 0.18:
         return _pad_case(cs, H)
+    if mode < 0.24:
+        return _symlink_case(cs, H)
     n = _sizes(rng)
     data = world.gen_bytes(rng, n)
     k = rng.choice([1, 1, 2, 3, 6, 7])
@@ -241,6 +243,46 @@ def run_case(cs):
                     {"size": n, "offset": i, **r.brief()},
                 )
     cs.sample({"size": n, "formats": subset, "name": fname, "want": {f: want[f] for f in subset[:2]}})
+
+
+def _symlink_case(cs, H):
+    """a file reached through a symbolic link has the digest of the bytes it points to, in every entry point"""
+    rng = cs.rng
+    d = cs.dir()
+    root = os.path.join(d, "R")
+    os.makedirs(os.path.join(root, "sub"))
+    n = rng.choice([1, 5, 40, 300, 4097, 70000, _obs["chunk"] + 1])
+    data = world.gen_bytes(rng, n)
+    with open(os.path.join(root, "sub", "real.bin"), "wb") as f:
+        f.write(data)
+    link = os.path.join(root, rng.choice(["l.bin", "sub/l.bin", "a-much-longer-link-name-than-the-content.bin"]))
+    os.symlink(rng.choice([os.path.join(root, "sub", "real.bin"), os.path.relpath(os.path.join(root, "sub", "real.bin"), os.path.dirname(link))]), link)
+    subset = rng.sample(CLI_FMT, rng.choice([1, 2, 6]))
+    want = {f: refhash.digest(f, data) for f in subset}
+    cs.count("symlinked_file_cases")
+    for f in subset:
+        _cmp(cs, f, "hash_file-symlink", H.hash_file(link, f), want[f], n)
+    multi = H.multiple_format_hash_file(link, list(subset))
+    for f in subset:
+        _cmp(cs, f, "multi_file-symlink", multi.get(f), want[f], n)
+    r = drive.run("create", [root] + world.fmt_args(subset))
+    if r.exit != 0:
+        cs.violation("create-failed", {"kind": "create-failed", "exit": r.exit, "exc": r.exc_class}, r.brief())
+        return
+    m = xmlread.read_manifest(os.path.join(root, "ascmhl", world.manifests(root)[-1]))
+    rel = os.path.relpath(link, root)
+    for h in m["hashes"]:
+        if h["kind"] == "file" and h["path"] in (rel, "sub/real.bin"):
+            got = {e[0]: e[1] for e in h["entries"]}
+            for f in subset:
+                _cmp(cs, f, "create-symlink" if h["path"] == rel else "create", got.get(f), want[f], n)
+    f0 = subset[0]
+    r = drive.run("hash", [link, "-h", f0])
+    _cmp(cs, f0, "hash_cmd-symlink", (r.out or "").strip().rsplit(" = ", 1)[-1], want[f0], n)
+    r = drive.run("verify", [root])
+    cs.evaluated()
+    if r.exit != 0:
+        cs.violation("verify-untouched-nonzero", {"kind": "verify-untouched", "exit": r.exit, "exc": r.exc_class, "size_class": "symlink"}, r.brief())
 
 
 class _Stub:
